@@ -783,7 +783,7 @@ def _plan(tier):
 
 def run(rep: Report):
     tier = rep.tier
-    opts = {"prove_timeout_ms": 10000, "fork_timeout_ms": 1500, "seed": rep.seed, "scenario_wall_s": 240 if tier == "quick" else 1200}
+    opts = {"prove_timeout_ms": 10000, "fork_timeout_ms": 1500, "seed": rep.seed, "scenario_wall_s": 900 if tier == "quick" else 1200}
     run_plan(rep, _plan(tier), SCENARIOS, opts)
     rep.bounds = {"drivers x tables": {d: list(t) for d, t in TABLES.items()}, "restart point": "symbolic step counter k >= 0, symbolic generator position, symbolic reference energies (arbitrary state)", "continuation": "1 step after the restart (inductive through state equality)", "atoms": "2-3"}
     rep.assumptions = ["numpy PCG64/Generator replaced by a stub whose state is a (stream, position) token and whose draws are symbols named by that token (equal states => equal draws)", "calculator re-attached after the restart (documented: calculators are not serialized)", "numeric parameters symbolic, carried through the real JSON codec as sentinels"]
